@@ -5,23 +5,45 @@ open KeepVerif KeepVerif.C24
 def parseMsg (i : Nat) (s : String) : Option Msg :=
   match (s.splitOn ":").mapM String.toNat? with
   | some [k, n, sid, b, w, a] =>
-    if sid < 256 then some ⟨k, n, sid, b, w, a, if a = 0 then 0 else i + 1⟩ else none
+    -- kind 2 = coordination message with retransmissions (same seqno, deduplicated by the channel)
+    if sid < 256 && k ≤ 2 then some ⟨if k = 2 then 0 else k, n, sid, b, w, a, if a = 0 then 0 else i + 1⟩
+    else none
   | _ => none
 
 def parseMsgs (s : String) : Option (List Msg) :=
   ((splitList s).zipIdx).mapM fun (t, i) => parseMsg i t
 
+def mkCase (seats self leader block allowed msgs : String) : Option (Cfg × List Msg) := do
+  let seats ← parseNats seats
+  let self ← self.toNat?
+  let leader ← leader.toNat?
+  let block ← block.toNat?
+  let allowed ← parseNats allowed
+  let msgs ← parseMsgs msgs
+  if seats.length > 255 then none
+  pure (⟨seats, membersByOperator seats self, leader, block, allowed⟩, msgs)
+
 def parseCase (line : String) : Option (Cfg × List Msg) :=
   match splitWs line with
-  | ["follow", seats, self, leader, block, allowed, msgs] => do
-    let seats ← parseNats seats
-    let self ← self.toNat?
-    let leader ← leader.toNat?
-    let block ← block.toNat?
-    let allowed ← parseNats allowed
-    let msgs ← parseMsgs msgs
-    if seats.length > 255 then none
-    pure (⟨seats, membersByOperator seats self, leader, block, allowed⟩, msgs)
+  | ["follow", seats, self, leader, block, allowed, msgs] => mkCase seats self leader block allowed msgs
+  | _ => none
+
+def parseSeq (line : String) : Option (List (Cfg × List Msg)) :=
+  match splitWs line with
+  | ["fseq", seats, self, allowed, windows] =>
+    (windows.splitOn "|").mapM fun w =>
+      match w.splitOn ";" with
+      | [leader, block, msgs] => mkCase seats self leader block allowed msgs
+      | _ => none
+  | _ => none
+
+def parseRace (line : String) : Option (Cfg × List Msg × Nat) :=
+  match splitWs line with
+  | ["frace", seats, self, leader, block, allowed, msgs, k] => do
+    let (cfg, ms) ← mkCase seats self leader block allowed msgs
+    let k ← k.toNat?
+    if k > ms.length then none
+    pure (cfg, ms, k)
   | _ => none
 
 def showFault (f : Fault) : String :=
@@ -31,14 +53,22 @@ def showProp : Option (Nat × Nat) → String
   | none => "-"
   | some (a, t) => s!"{a}:{t}"
 
+def panicText : String := "PANIC runtime error: index out of range [0] with length 0"
+
+def render (r : Option (Option (Nat × Nat) × List Fault)) : String :=
+  match r with
+  | none => panicText
+  | some (p, fs) =>
+    s!"prop={showProp p} faults={showList (fs.map showFault)} err={if p.isNone then 1 else 0}"
+
 def model (line : String) : String :=
-  match parseCase line with
-  | none => "bad-op"
-  | some (cfg, msgs) =>
-    match follower cfg msgs with
-    | none => "PANIC runtime error: index out of range [0] with length 0"
-    | some (p, fs) =>
-      s!"prop={showProp p} faults={showList (fs.map showFault)} err={if p.isNone then 1 else 0}"
+  match parseCase line, parseSeq line, parseRace line with
+  | some (cfg, msgs), _, _ => render (follower cfg msgs)
+  | _, some ws, _ =>
+    let rs := followerSeq ws
+    if rs.any Option.isNone then panicText else " / ".intercalate (rs.map render)
+  | _, _, some _ => "SKIP"
+  | _, _, _ => "bad-op"
 
 def parseFault (s : String) : Option Fault :=
   match s.toList with
@@ -58,20 +88,40 @@ def parseProp (s : String) : Option (Option (Nat × Nat)) :=
 def stripPrefix (pre s : String) : Option String :=
   if s.startsWith pre then some (s.drop pre.length).toString else none
 
+def monitorOne (cfg : Cfg) (msgs : List Msg) (obs : String) : String :=
+  match splitWs obs with
+  | [p, f, e] =>
+    match (stripPrefix "prop=" p).bind parseProp,
+          (stripPrefix "faults=" f).bind (fun s => (splitList s).mapM parseFault),
+          stripPrefix "err=" e with
+    | some prop, some faults, some err =>
+      if (err == "1") != prop.isNone then "FAIL error-without-idle-or-proposal-with-error"
+      else if holds cfg msgs prop faults then "ok" else "FAIL follower-rule"
+    | _, _, _ => "FAIL unparsable-observation"
+  | _ =>
+    if (leaderID? cfg).isNone && obs.startsWith "PANIC" then "ok" else "FAIL unparsable-observation"
+
 def monitor (op obs : String) : String :=
-  match parseCase op with
-  | none => if obs = "bad-op" then "ok" else "FAIL bad-op"
-  | some (cfg, msgs) =>
-    match splitWs obs with
-    | [p, f, e] =>
-      match (stripPrefix "prop=" p).bind parseProp,
-            (stripPrefix "faults=" f).bind (fun s => (splitList s).mapM parseFault),
-            stripPrefix "err=" e with
-      | some prop, some faults, some err =>
-        if (err == "1") != prop.isNone then "FAIL error-without-idle-or-proposal-with-error"
-        else if holds cfg msgs prop faults then "ok" else "FAIL follower-rule"
-      | _, _, _ => "FAIL unparsable-observation"
-    | _ =>
-      if (leaderID? cfg).isNone && obs.startsWith "PANIC" then "ok" else "FAIL unparsable-observation"
+  match parseCase op, parseSeq op, parseRace op with
+  | some (cfg, msgs), _, _ => monitorOne cfg msgs obs
+  | _, some ws, _ =>
+    let os := obs.splitOn " / "
+    if os.length != ws.length then
+      (if ws.any (fun w => (leaderID? w.1).isNone) && obs.startsWith "PANIC" then "ok"
+       else "FAIL unparsable-observation")
+    else
+      match (ws.zip os).filterMap (fun (w, o) =>
+          let r := monitorOne w.1 w.2 o
+          if r = "ok" then none else some r) with
+      | [] => "ok"
+      | r :: _ => r ++ " (window of a long-lived executor)"
+  | _, _, some (cfg, msgs, k) =>
+    -- the loop processed msgs[:j] for some k ≤ j ≤ n before it saw the cancellation
+    if (List.range (msgs.length - k + 1)).any (fun d => render (follower cfg (msgs.take (k + d))) == obs)
+    then monitorOne cfg (msgs.take ((List.range (msgs.length - k + 1)).foldl
+            (fun acc d => if render (follower cfg (msgs.take (k + d))) == obs && acc == msgs.length + 1
+                          then k + d else acc) (msgs.length + 1))) obs
+    else "FAIL result-of-no-prefix-of-the-history"
+  | _, _, _ => if obs = "bad-op" then "ok" else "FAIL bad-op"
 
 def main (args : List String) : IO UInt32 := driverMain model monitor args
